@@ -24,6 +24,9 @@ import (
 	"github.com/makiuchi-d/gozxing/oned/rss"
 	"github.com/makiuchi-d/gozxing/qrcode"
 	"github.com/makiuchi-d/gozxing/qrcode/decoder"
+
+	az "verifdriver/aztecref"
+	ref "verifdriver/onedref"
 )
 
 // OpSpec is one whole-API operation of a task script. All content is derived
@@ -43,6 +46,9 @@ func (r *prng) next() uint64 {
 	z = (z ^ (z >> 27)) * 0x94d049bb133111eb
 	return z ^ (z >> 31)
 }
+// Intn makes prng an aztecref.Chooser.
+func (r *prng) Intn(n int) int { return r.intn(n) }
+
 func (r *prng) intn(n int) int {
 	if n <= 1 {
 		return 0
@@ -315,6 +321,134 @@ func runOp(in *instances, op OpSpec) (d string) {
 			return "load " + err.Error()
 		}
 		bmp, _ := gozxing.NewBinaryBitmapFromImage(img)
+		res, err := in.az.Decode(bmp, nil)
+		return digestResult(res, err)
+	case "eanext":
+		// a UPC/EAN symbol with a 2- or 5-digit add-on (the add-on decoder and its scratch buffers)
+		sym := []string{"ean13", "upca", "ean8"}[r.intn(3)]
+		_, rd, _, content := oneD(in, sym, r)
+		body := make([]int, len(content))
+		for i := range content {
+			body[i] = int(content[i] - '0')
+		}
+		full := append(body, ref.Mod10(body))
+		var row ref.Row
+		switch sym {
+		case "ean13":
+			row = ref.EAN13(full)
+		case "upca":
+			row = ref.UPCA(full)
+		default:
+			row = ref.EAN8(full)
+		}
+		n := 2 + 3*r.intn(2)
+		ad := make([]int, n)
+		for i := range ad {
+			ad[i] = r.intn(10)
+		}
+		par := ref.EAN2Parity(ad[0]*10 + ad[1])
+		if n == 5 {
+			par = ref.EAN5Parity(ad)
+		}
+		if r.intn(5) == 0 {
+			par ^= 1 // wrong parity: must be dropped, deterministically
+		}
+		for i := 0; i < 9; i++ {
+			row = append(row, false)
+		}
+		row = append(row, ref.Addon(ad, par)...)
+		scale := 1 + r.intn(3)
+		bm, _ := gozxing.NewBitMatrix((len(row)+40)*scale, 30)
+		for i, v := range row {
+			if v {
+				bm.SetRegion((20+i)*scale, 0, scale, 30)
+			}
+		}
+		bmp, _ := gozxing.NewBinaryBitmapFromImage(bm)
+		res, err := rd.Decode(bmp, nil)
+		out := digestResult(res, err)
+		if in.multi == nil {
+			in.multi = oned.NewMultiFormatUPCEANReader(nil)
+		}
+		res, err = in.multi.Decode(bmp, nil)
+		return out + " | " + digestResult(res, err)
+	case "qrdmg", "dmdmg":
+		// write, damage a few modules (error correction has to work), read
+		var m *gozxing.BitMatrix
+		var err error
+		txt := text(r, 1+r.intn(60), r.intn(3))
+		if op.K == "qrdmg" {
+			if in.qrw == nil {
+				in.qrw = qrcode.NewQRCodeWriter()
+				in.qrr = qrcode.NewQRCodeReader()
+			}
+			hints := map[gozxing.EncodeHintType]interface{}{gozxing.EncodeHintType_ERROR_CORRECTION: ecLevels[2+r.intn(2)], gozxing.EncodeHintType_MARGIN: 0}
+			m, err = in.qrw.Encode(txt, gozxing.BarcodeFormat_QR_CODE, 0, 0, hints)
+		} else {
+			if in.dmw == nil {
+				in.dmw = datamatrix.NewDataMatrixWriter()
+				in.dmr = datamatrix.NewDataMatrixReader()
+			}
+			m, err = in.dmw.Encode(txt, gozxing.BarcodeFormat_DATA_MATRIX, 0, 0, nil)
+		}
+		if err != nil {
+			return "W " + digestMatrix(m, err)
+		}
+		w, h := m.GetWidth(), m.GetHeight()
+		for i, n := 0, 1+r.intn(3); i < n; i++ {
+			// interior modules, away from the finder corners
+			m.Flip(w/2+r.intn(w/3), h/2+r.intn(h/3)-h/6)
+		}
+		scale := 2 + r.intn(2)
+		big, _ := gozxing.NewBitMatrix((w+8)*scale, (h+8)*scale)
+		for y := 0; y < h; y++ {
+			for x := 0; x < w; x++ {
+				if m.Get(x, y) {
+					big.SetRegion((x+4)*scale, (y+4)*scale, scale, scale)
+				}
+			}
+		}
+		bmp, _ := gozxing.NewBinaryBitmapFromImage(big)
+		dh := map[gozxing.DecodeHintType]interface{}{gozxing.DecodeHintType_PURE_BARCODE: true}
+		var res *gozxing.Result
+		if op.K == "qrdmg" {
+			res, err = in.qrr.Decode(bmp, dh)
+		} else {
+			res, err = in.dmr.Decode(bmp, dh)
+		}
+		return digestMatrix(m, nil) + " | " + digestResult(res, err)
+	case "aztecgen":
+		// reference-made Aztec symbol with codeword damage through the real reader
+		if in.az == nil {
+			in.az = aztec.NewAztecReader()
+		}
+		layers := 1 + r.intn(6)
+		compact := layers <= 4 && r.intn(2) == 0
+		n := 1 + r.intn(4*layers*layers+6)
+		txt := []byte(text(r, n, r.intn(4)))
+		bits := az.HighLevel(txt, r, func(string) {})
+		words := az.Stuff(bits, az.WordSize(layers), func(string) {})
+		s := az.Build(words, layers, compact)
+		if s == nil {
+			return "does not fit"
+		}
+		t := (len(s.Words) - s.DataWords) / 2
+		for i, k := 0, r.intn(t+1); i < k; i++ {
+			wd := r.intn(len(s.Words))
+			for _, p := range s.WordMods[wd][:1+r.intn(len(s.WordMods[wd]))] {
+				s.M[p.Y][p.X] = !s.M[p.Y][p.X]
+			}
+		}
+		scale := 3 + r.intn(2)
+		bm, _ := gozxing.NewBitMatrix((s.Size+6)*scale, (s.Size+6)*scale)
+		for y := 0; y < s.Size; y++ {
+			for x := 0; x < s.Size; x++ {
+				if s.M[y][x] {
+					bm.SetRegion((x+3)*scale, (y+3)*scale, scale, scale)
+				}
+			}
+		}
+		bmp, _ := gozxing.NewBinaryBitmapFromImage(bm)
 		res, err := in.az.Decode(bmp, nil)
 		return digestResult(res, err)
 	case "rs":
